@@ -2,6 +2,8 @@ import WhVerif.Lemmas.C01Dp
 import WhVerif.Lemmas.C01Flat
 import WhVerif.Lemmas.C01Gray
 import WhVerif.Lemmas.C01Table
+import WhVerif.Lemmas.C01WitnessMain
+import WhVerif.Lemmas.C01WitnessAlleles
 /-!
 # C01 — property theorems (about the model `WhVerif.C01` of `PedigreeDPTable`)
 
@@ -74,6 +76,36 @@ theorem backproj_index (k w idx : Nat) (h : idx < 2 ^ k) :
     natOfBits ((bitsOf k idx).take w) = idx % 2 ^ w := by
   rw [natOfBits_take, natOfBits_bitsOf k idx h]
 
+/-! ## the witness and the tie flags -/
+
+/-- **Witness**: the read bipartition and transmission vector recovered by the backtrace are a well-formed
+solution that achieves exactly the reported cost -/
+theorem dp_witness (I : Inst) (h : WF I) (β : List Bool) (τ : List Nat) (hw : witness I = some (β, τ)) :
+    β.length = I.nreads ∧ τ.length = I.ncols ∧ (∀ t ∈ τ, t < I.ntrans) ∧ totalCost I β τ = dpCost I :=
+  WhVerif.C01.dp_witness I h β τ hw
+
+/-- a witness exists exactly when the instance is feasible -/
+theorem witness_none_iff (I : Inst) : witness I = none ↔ dpCost I = none := WhVerif.C01.witness_none_iff I
+
+/-- `get_alleles` raises ("Mendelian conflict") iff the column has no admissible allele assignment -/
+theorem getAlleles_none_iff (I : Inst) (c : Nat) (bs : List Bool) (t : Nat) :
+    getAlleles I c bs t = none ↔ assignments I c t = [] := WhVerif.C01.getAlleles_none_iff I c bs t
+
+/-- **Tie flags**: an allele of the returned haplotypes that is not flagged as tie (3) agrees with EVERY
+cost-optimal admissible allele assignment of its column; a flagged one has optimal assignments both ways -/
+theorem nontie_forced (I : Inst) (c : Nat) (bs : List Bool) (t : Nat) (L : List (Nat × Nat))
+    (hL : getAlleles I c bs t = some L) (ind h : Nat) (hind : ind < I.nind) (hh : h = 0 ∨ h = 1) :
+    (reported L ind h = 0 ∨ reported L ind h = 1 ∨ reported L ind h = 3) ∧
+    (reported L ind h ≠ 3 → ∀ ag, IsOptAssign I c bs t ag → bitOf ag.1 (h2p I t ind h) = reported L ind h) ∧
+    (reported L ind h = 3 →
+        (∃ ag, IsOptAssign I c bs t ag ∧ bitOf ag.1 (h2p I t ind h) = 0) ∧
+        (∃ ag, IsOptAssign I c bs t ag ∧ bitOf ag.1 (h2p I t ind h) = 1)) :=
+  WhVerif.C01.nontie_forced I c bs t L hL ind h hind hh
+
+/-- non-vacuity of `nontie_forced`: optimal assignments exist whenever any assignment is admissible -/
+theorem opt_assign_exists (I : Inst) (c : Nat) (bs : List Bool) (t : Nat) (h : assignments I c t ≠ []) :
+    ∃ ag, IsOptAssign I c bs t ag := WhVerif.C01.opt_assign_exists I c bs t h
+
 /-! ## the code-level enumeration: Gray code and incremental cost table -/
 
 /-- `GrayCodes` (src/graycodes.cpp, state `(c, s, i, changed)` as coded) enumerates every bipartition index of a
@@ -136,5 +168,10 @@ theorem exampleInst_wf : WF exampleInst := by
   exact hall r2 h2 r1 h1
 
 example : dpCost exampleInst = optCost exampleInst := dp_optimal _ exampleInst_wf
+
+example : ∃ β τ, witness exampleInst = some (β, τ) ∧ totalCost exampleInst β τ = dpCost exampleInst := by
+  have h : (witness exampleInst).isSome = true := by decide +kernel
+  obtain ⟨⟨β, τ⟩, hw⟩ := Option.isSome_iff_exists.mp h
+  exact ⟨β, τ, hw, (dp_witness _ exampleInst_wf β τ hw).2.2.2⟩
 
 end WhVerif.Props.C01
